@@ -1,11 +1,13 @@
 ID = "C15"
 LEVEL = "model_checking"
-BOUNDS = "all 2^32 error codes; all u64 ids; string ids <= 3 bytes; response objects of <= 4 members in any order / duplication"
-EXPLANATION = ("Bounded model checking (Kani/CBMC, SAT) of jsonrpsee-types' own code: the ErrorCode<->i32 mapping for every i32 and every kind, "
-               "the untagged Id/SubscriptionId (de)serialisers and the hand-written Response visitor/serialiser driven at the serde token level "
-               "by symbolic member sequences.")
+MIRSYM = "C15"
+BOUNDS = ("all 2^32 error codes (Kani); response objects of <= 4 (quick) / 5 (thorough) members over {jsonrpc, result, error, id, other} in any order / duplication with every read outcome "
+          "(value / null / error) per member (MIR -> SMT)")
+EXPLANATION = ("Bounded model checking (Kani/CBMC, SAT) of the ErrorCode<->i32 mapping for every i32 and every kind; symbolic execution of the MIR of the hand-written Response "
+               "visitor (visit_map and the key visitor) against a symbolic serde MapAccess: z3 decides that the parser accepts exactly the member sequences the property allows.")
 TRUSTED = ["rustc/Kani MIR->goto translation", "CBMC 6.11 + CaDiCaL", "serde_json text<->token fidelity (tokens, not text, are symbolic)"]
-OUTSIDE = ["JSON text scanning (serde_json)", "deep nesting and float precision of payloads (RawValue is copied verbatim)"]
+OUTSIDE = ["JSON text scanning (serde_json)", "deep nesting and float precision of payloads (RawValue is copied verbatim)",
+           "serialise/parse round-trips of requests, notifications, ids and subscription ids (derive-generated serde code over serde_json: no solver-reachable kernel; native battery only)"]
 ASSUMPTIONS = ["ServerError(c) counts as a library-defined kind only for c that is not the code of a unit kind"]
 FUNCTIONS = ["jsonrpsee_types::error::ErrorCode::code", "<ErrorCode as From<i32>>::from"]
 KANI = [
